@@ -328,6 +328,110 @@ def c04_bounded(tier="quick", seed=0):
     return out
 
 
+GLOBAL_NAMES = ["Object", "Array", "Function", "Error", "TypeError", "RangeError", "SyntaxError", "ReferenceError", "String", "Number", "Boolean", "RegExp", "JSON", "Math", "Date",
+                "Uint8Array", "ArrayBuffer", "parseInt", "isNaN", "undefined", "NaN", "Infinity", "eval"]
+GLOBAL_VALUES = ["1", "null", "undefined", "'s'", "({})", "function () { return 7 }"]
+BATTERY = [
+    "Object.getPrototypeOf(function () {})", "Object.getPrototypeOf([])", "Object.getPrototypeOf({})", "(function () {}).call", "(function () {}).bind(null)()", "new (function F() {})()",
+    "({}).toString()", "[1, 2].map(function (x) { return x })", "[3, 1].sort()", "[].concat([1])", "'a,b'.split(',')", "'abc'.match(/b/)", "'abc'.replace('b', 'x')", "/a/.exec('a')",
+    "null.x", "undefinedName", "(1)()", "new Array(-1)", "'a'.repeat(-1)", "JSON.parse('{')", "JSON.stringify({a: [1]})", "JSON.parse('[1, {\"a\": 2}]')", "eval('(')", "new Function('(')",
+    "Object.keys({a: 1})", "Object.create(null)", "Object.create({})", "Object.setPrototypeOf({}, null)", "Object.assign({}, {a: 1})", "Object.defineProperty({}, 'a', {value: 1})",
+    "var o = {}; o instanceof Object", "[] instanceof Array", "(function () {}) instanceof Function", "new Error('e') instanceof Error", "typeof new Error('e').stack", "new TypeError('t').name",
+    "String(1)", "Number('1')", "Boolean(0)", "(1.5).toFixed(1)", "new RegExp('a')", "Math.max(1, 2)", "new Uint8Array(2).join()", "new Uint8Array(2).buffer", "new Uint8Array(4).subarray(1)",
+    "for (var k in {a: 1}) { } k", "for (var v of [1]) { } v", "try { throw new Error('x') } catch (e) { e.message }", "try { null.x } catch (e) { [e.name, e instanceof Error, String(e)] }",
+    "parseInt('12')", "isNaN(1)", "1 / 0", "0 / 0", "void 0", "[1, [2]].join()", "'x'.toUpperCase.call('y')", "[].slice.call([1, 2], 1)", "Array.prototype.push.call([1], 2)",
+]
+
+
+def _globals_chunk(names):
+    from microjs import Context
+    from microjs.errors import JSError
+    bad, n = [], 0
+    for g in names:
+        for v in GLOBAL_VALUES:
+            for how in ("{G} = {V};", "var {G} = {V};", "delete {G};"):
+                if how.startswith("delete") and v != "1":
+                    continue
+                pre = how.replace("{G}", g).replace("{V}", v)
+                for b in BATTERY:
+                    src = pre + " " + b
+                    n += 1
+                    try:
+                        Context(time_limit=2.0, memory_limit=10_000_000).eval(src)
+                    except JSError:
+                        pass
+                    except BaseException as e:  # noqa
+                        bad.append((src, "host exception " + type(e).__name__ + ": " + str(e)[:80]))
+                        break
+    return n, bad
+
+
+@groups.group(id="C04.bounded.replaced-globals", prop="C04", kind="B", functions=["microjs.context:Context._setup_globals", "microjs.vm:VM._function_prototype", "microjs.vm:VM._object_prototype"])
+def c04_replaced_globals(tier="quick", seed=0):
+    """a script may assign to, redeclare or delete any global binding (Object, Function, Error, ...): what the engine needs
+    of its own built-ins afterwards either still works or fails with a JSError, never with a host exception"""
+    import multiprocessing as mp
+    with mp.get_context("fork").Pool(12) as pool:
+        res = pool.map(_globals_chunk, [[g] for g in GLOBAL_NAMES])
+    out = []
+    for g, (n, bad) in zip(GLOBAL_NAMES, res):
+        out.append(ob(f"C04.bounded.replaced-globals.{g}", not bad, "B", f"{n} programs" if not bad else f"{bad[0][0]!r}: {bad[0][1]}",
+                      witness=bad[0][0] if bad else None, confirmed=True if bad else None, domain=n))
+    return out
+
+
+NESTS = {
+    "paren": lambda n: "(" * n + "1" + ")" * n, "paren-unclosed": lambda n: "(" * n + "1", "paren-in-call": lambda n: "f(" + "(" * n + "1" + ")" * n + ")",
+    "paren-pairs": lambda n: "(" * n + "(a) + (b)" + ")" * n, "paren-then-arrow": lambda n: "(" * n + "(a) => a" + ")" * n, "array": lambda n: "[" * n + "1" + "]" * n,
+    "call": lambda n: "f(" * n + "1" + ")" * n, "index": lambda n: "a" + "[0]" * n, "member": lambda n: "a" + ".b" * n, "unary": lambda n: "!" * n + "1", "ternary": lambda n: "1?" * n + "1" + ":1" * n,
+    "block": lambda n: "{" * n + "}" * n, "object": lambda n: "({a:" * n + "1" + "})" * n, "sum": lambda n: "1" + "+1" * n, "comma": lambda n: "1" + ",1" * n, "statements": lambda n: "1;" * n,
+    "else-if": lambda n: "if(0){}else " * n + "{}", "string": lambda n: "'" + "a" * (n * 10) + "'", "comment": lambda n: "/*" + "a" * (n * 10) + "*/1", "line-comments": lambda n: "//x\n" * n + "1",
+    "function": lambda n: "function f(){" * n + "}" * n, "arrow": lambda n: "(a)=>" * n + "1", "assign": lambda n: "a=" * n + "1", "regex-groups": lambda n: "/" + "(a)" * n + "/",
+    "regex-nest": lambda n: "/" + "(" * n + "a" + ")" * n + "/", "regex-class": lambda n: "/[" + "a-z" * n + "]/", "cases": lambda n: "switch(1){" + "case 1:" * n + "}", "vars": lambda n: "var " + ",".join("v%d" % i for i in range(n)),
+    "labels": lambda n: "".join("l%d:" % i for i in range(n)) + "1", "try": lambda n: "try{" * n + "}catch(e){}" * n, "paren-array": lambda n: "[(" * n + "1" + ")]" * n, "new": lambda n: "new " * n + "F",
+    "template-like": lambda n: "'" + "\\n" * n + "'", "regex-in-paren": lambda n: "(" * n + "/\\(/" + ")" * n, "string-of-parens": lambda n: "'" + "(" * n + "'",
+}
+
+
+def _nest_case(name):
+    import time as _t
+    from microjs import Context
+    from microjs.errors import JSError
+    worst = None
+    for n in (250, 1000, 4000, 16000):
+        src = NESTS[name](n)
+        t0 = _t.process_time()
+        try:
+            Context().eval(src)
+            kind = "ok"
+        except JSError:
+            kind = "JSError"
+        except BaseException as e:  # noqa
+            return name, n, "host exception " + type(e).__name__ + ": " + str(e)[:60], 0.0
+        dt = _t.process_time() - t0
+        if worst is None or dt > worst[1]:
+            worst = (n, dt, kind)
+        if dt > 8.0:
+            break
+    return name, worst[0], worst[2], worst[1]
+
+
+@groups.group(id="C04.bounded.front-end-cost", prop="C04", kind="B", functions=["microjs.parser:Parser", "microjs.lexer:Lexer", "microjs.compiler:Compiler"])
+def c04_front_end_cost(tier="quick", seed=0):
+    """'the front end never hangs': sources of a few kilobytes to a few hundred kilobytes made of one construct nested or
+    repeated n times (n up to 16000) are accepted or refused within seconds of CPU time -- no construct costs n^2 with a
+    constant that matters (bound: 8 s of CPU time for any of them; linear behaviour is three orders of magnitude below)"""
+    import multiprocessing as mp
+    with mp.get_context("fork").Pool(12) as pool:
+        res = pool.map(_nest_case, sorted(NESTS))
+    out = []
+    for name, n, kind, dt in res:
+        ok = not kind.startswith("host") and dt <= 8.0
+        out.append(ob(f"C04.bounded.front-end-cost.{name}", ok, "B", f"n={n}: {kind} after {dt:.2f}s of CPU time",
+                      witness=None if ok else f"<{name} nested/repeated {n} times>: " + NESTS[name](3)[:60], confirmed=None if ok else True, domain=4))
+    return out
+
+
 @groups.group(id="C04.bounded.positions", prop="C04", kind="B", functions=["microjs.lexer:Lexer._skip_whitespace", "microjs.lexer:Lexer._advance"])
 def c04_positions(tier="quick", seed=0):
     """a JSSyntaxError carries the position of the offending character, whatever trivia precedes it (the layouts of C13)"""
